@@ -173,7 +173,7 @@ fn check_map(l: &mut vh::Local<'_>, cfg: vh::gen::ModeCfg, spec: &vh::gen::MapSp
 
 fn main() {
     let ctx = Ctx::from_env("C16");
-    ctx.rule("case = (mode configuration, grammar map with gaps {150,400,1000,7000} and first start in {-500,0,400,1000}; plus maps of <= 3/4 objects at gaps {0, 10, 150} ms stacked and apart under no mod and FL+DT, and three maps per mode configuration that check_suspicion flags: objects a day apart, 120 objects 5 ms apart, 260 objects 3 ms apart); per case: settings menu x every passed_objects prefix; oracle = peaks finite and >= 0; all skills of the mode have the same number of sections; at clock rate 1 the section count equals an independent count from the object times (osu!, taiko, mania); re-aggregation (drop zeros, sort descending, sum p_i*w^i with w=0.94 catch / 0.9 mania; plain sum for flashlight, then TD/RX/AP factors) reproduces stars (catch, mania) and flashlight (osu!) within relative 1e-9; non-trivial = at least one positive peak");
+    ctx.rule("case = (mode configuration, grammar map with gaps {150,400,1000,7000} and first start in {-500,0,400,1000}; plus maps of <= 3/4 objects at gaps {0, 10, 150} ms stacked and apart under no mod and FL+DT, native mania files with notes on and beyond the playfield borders (x in {-40, 0, 255, 511, 512, 640}), and three maps per mode configuration that check_suspicion flags: objects a day apart, 120 objects 5 ms apart, 260 objects 3 ms apart); per case: settings menu x every passed_objects prefix; oracle = peaks finite and >= 0; all skills of the mode have the same number of sections; at clock rate 1 the section count equals an independent count from the object times (osu!, taiko, mania); re-aggregation (drop zeros, sort descending, sum p_i*w^i with w=0.94 catch / 0.9 mania; plain sum for flashlight, then TD/RX/AP factors) reproduces stars (catch, mania) and flashlight (osu!) within relative 1e-9; non-trivial = at least one positive peak");
 
     // periodic longer maps first
     {
@@ -234,6 +234,26 @@ fn main() {
                 check_map(l, *cfg, &spec, &map, &menu);
             });
         }
+    }
+    // native mania files with notes on and beyond the playfield borders (x = 512 is the right border itself): every x maps to
+    // some column, and the ratings still follow from the peaks
+    {
+        let xs: [i32; 6] = [-40, 0, 255, 511, 512, 640];
+        let cfg = gen::ModeCfg { src: 3, dst: 3 };
+        let menu = vec![Setting::nm(), Setting::bits(settings::KEY7)];
+        ctx.universe("mania-border-positions/3to3", (xs.len() * xs.len() * 2) as u64, |idx, l| {
+            let (a, b, long) = (xs[idx as usize % 6], xs[(idx as usize / 6) % 6], idx as usize / 36 == 1);
+            let second = if long { format!("{b},192,1150,128,0,1500:0:0:0:0:") } else { format!("{b},192,1150,1,0,0:0:0:0:") };
+            let text = format!("osu file format v14\n\n[General]\nMode: 3\n\n[Difficulty]\nHPDrainRate:5\nCircleSize:4\nOverallDifficulty:7\nApproachRate:8\nSliderMultiplier:1.4\nSliderTickRate:1\n\n[TimingPoints]\n0,500,4,2,0,60,1,0\n\n[HitObjects]\n{a},192,1000,1,0,0:0:0:0:\n{second}\n{a},192,1300,1,0,0:0:0:0:\n{b},192,1450,1,0,0:0:0:0:\n");
+            let map = Beatmap::from_bytes(text.as_bytes()).expect("decodes");
+            // (a violation report shows this nominal, empty spec; the decoded text is a function of the case index and is printed
+            // when the case is replayed)
+            let spec = gen::MapSpec::new(3, Vec::new());
+            if l.ctx.replay.is_some() {
+                println!("mania-border-positions case {idx}: x1={a} x2={b} long={long}\n--- .osu ---\n{text}");
+            }
+            check_map(l, cfg, &spec, &map, &menu);
+        });
     }
     let n_max = ctx.pick(3, 4);
     for first_start in [1000, -500, 0, 400] {
